@@ -18,13 +18,17 @@ func yq(s string) string {
 	enc := json.NewEncoder(&b)
 	enc.SetEscapeHTML(false)
 	enc.Encode(s)
-	return strings.TrimRight(b.String(), "\n")
+	// DEL is legal raw in JSON but not in YAML
+	return strings.ReplaceAll(strings.TrimRight(b.String(), "\n"), "\x7f", "\\u007f")
 }
 
 func c13Strings(e *core.Env) []string {
 	tokens := []string{"\"", "'", "\\", "%", "{", "}", "`", "$", "\n", "\t", "é", "🎉", "#", ":", " ", "a", "Z9", "%v", "%d", "%%", "%!v(MISSING)",
 		"{{ex.a}}", "{{ ex.b }}", "{{ex.zz}}", "{{foo.bar}}", "{{", "}}", "{{ex.a}", "{{ ex . a }}", "$message", "$node", "not", "targetClass", "\\n", "\\\"", "\\u0041",
-		"\") ; x := http.send({", "\"] = 1 #", "- ", "&a", "*", "|", ">", "~", "null", "true", "1e3"}
+		"\") ; x := http.send({", "\"] = 1 #", "- ", "&a", "*", "|", ">", "~", "null", "true", "1e3",
+		// characters that need care when pasted into source text: other controls, DEL, no-break space, zero-width joiner, line separator,
+		// an emoji flag spelt with astral TAG characters, a plane-16 private-use character, an ANSI colour sequence
+		"\x1b[31m", "\f", "\v", "\x01", "\x7f", "\u00a0", "\u200d", "\u2028", "\U0001F3F4\U000E0067\U000E0062\U000E0065\U000E006E\U000E0067\U000E007F", "\U0010FFFD", "\r"}
 	out := []string{}
 	seen := map[string]bool{}
 	add := func(s string) {
@@ -52,7 +56,7 @@ const c13Data = `{"@graph":[{"@id":"http://example.org/d#a","@type":"http://exam
 
 func C13(e *core.Env) {
 	res := e.Res
-	res.Rule = "cases = (string, position) with position in {profile name, validation name, message}; strings: every token of a 47-item alphabet (quotes, backslash, percent, braces, backtick, dollar, newline, tab, non-ASCII BMP and astral, sprintf verbs, well-formed / malformed / repeated / absent placeholders, key names, YAML indicators, an injection attempt) alone and embedded, plus seeded concatenations of 2-6 tokens (260 quick / 4000 thorough); " +
+	res.Rule = "cases = (string, position) with position in {profile name, validation name, message}; strings: every token of a 58-item alphabet (quotes, control characters other than newline and tab, DEL, no-break space, zero-width joiner, line separator, an emoji flag spelt with astral TAG characters, a plane-16 private-use character, backslash, percent, braces, backtick, dollar, newline, tab, non-ASCII BMP and astral, sprintf verbs, well-formed / malformed / repeated / absent placeholders, key names, YAML indicators, an injection attempt) alone and embedded, plus seeded concatenations of 2-6 tokens (260 quick / 4000 thorough); " +
 		"each must compile, and profileName / sourceShapeName / resultMessage in the report must equal the text the Coq model says must be shown (message: placeholders replaced by the node's values, null when absent, double quotes as single quotes); non-trivial = the string contains a character outside [A-Za-z0-9 ]; distinct by (string, position)"
 	strs := c13Strings(e)
 	nontrivial := func(s string) bool {
